@@ -249,6 +249,62 @@ def check_svd(case):
     return out
 
 
+# ----------------------------------------------------------------------------
+# clause: extreme overall magnitudes (1e+-160 .. 1e+-250).  The singular values are representable there although their
+# squares are not, so any step that squares, averages squares or takes a Frobenius norm of the data overflows or
+# underflows in the middle.  The library sees A * 2^p; the oracle works on A itself (scaling by a power of two is exact).
+
+
+@st.composite
+def extreme_scale_cases(draw, tier):
+    m = draw(st.integers(1, 7))
+    n = draw(st.integers(1, 7))
+    rng = np.random.RandomState(draw(gen.seeds()))
+    A = rng.standard_normal((m, n, 4))
+    e10 = draw(st.sampled_from([-250, -200, -160, 160, 200, 250]))
+    return {"A": np.ascontiguousarray(A), "p": int(round(e10 * np.log2(10.0))), "R": draw(st.integers(1, min(m, n)))}
+
+
+def check_extreme_scale(case):
+    A, p, R = case["A"], case["p"], case["R"]
+    m, n, _ = A.shape
+    k = min(m, n)
+    out = Out()
+    out.label("up" if p > 0 else "down")
+    sref = ref.svals(A)
+    c = classify(sref, m, n)
+    s1 = float(sref[0])
+    Ab = np.ldexp(A, p)
+    Aq = Q(Ab)
+    for site, fn, args in (("classical_qsvd_full(extreme scale)", L.qsvd.classical_qsvd_full, (Aq,)),
+                           ("classical_qsvd(extreme scale)", L.qsvd.classical_qsvd, (Aq, R))):
+        ok, r = out.call(site, fn, *args)
+        if not ok:
+            continue
+        s = np.asarray(r[1], dtype=float)
+        kk = k if fn is L.qsvd.classical_qsvd_full else R
+        if not out.true(site + ":shape", s.shape == (kk,), f"{s.shape}"):
+            continue
+        if not out.true(site + ":s finite", bool(np.all(np.isfinite(s))), f"{s}"):
+            continue
+        sb = np.ldexp(s, -p)
+        out.le(site + ":s equals true singular values", float(np.max(np.abs(sb - sref[:kk]))), C_SV * (m + n) * U_ * s1,
+               f"s/2^p={sb[:4]} sigma={sref[:4]}")
+        Uf, Vf = F(r[0]), F(r[2])
+        if not out.true(site + ":factors finite", bool(np.all(np.isfinite(Uf)) and np.all(np.isfinite(Vf))), "NaN/inf in U or V"):
+            continue
+        if fn is L.qsvd.classical_qsvd and not (c["rep"] or c["near"]):
+            rec = ref.qmm(ref.scale_cols(Uf[:, :kk], sb), ref.conjT(Vf[:, :kk]))
+            err2 = ref.fro(A - rec) ** 2
+            opt2 = float(np.sum(sref[kk:] ** 2))
+            amp = max(1.0, c["s1"] / c["gap"])
+            slack = C_REC * (m + n) * U_ * min(amp, 1.0 / NEAR_REL) * s1 * s1
+            out.le(site + ":Eckart-Young (error not above optimum)", err2, opt2 * (1 + 1e-9) + slack, f"err^2={err2:.3e} opt^2={opt2:.3e}")
+    out.nontrivial = k >= 2
+    out.sample = {"shape": [m, n], "p": p, "R": R}
+    return out
+
+
 PROPERTY = Property(
     id="C05",
     title="Q-SVD: true singular values, unitary factors, exact and optimal reconstruction",
@@ -259,7 +315,8 @@ PROPERTY = Property(
              Clause("qsvd_moderate_size", check_svd, strategy=lambda tier: svd_cases(tier, size=(9, 20 if tier == "quick" else 40)),
                     budget={"quick": 40, "thorough": 400}, shrink=False),
              Clause("qsvd_long_dimension", check_svd, strategy=long_svd_cases, budget={"quick": 32, "thorough": 320},
-                    shrink=False)],
+                    shrink=False),
+             Clause("qsvd_extreme_scale", check_extreme_scale, strategy=extreme_scale_cases, budget={"quick": 60, "thorough": 800})],
     assumptions=[
         "reference singular values from LAPACK on the harness's complex adjoint",
         "orthonormality tolerance scales with sigma_1/gap (singular vectors are only determined to u*||A||/gap); values "
